@@ -21,6 +21,7 @@ _real_getpgid = os.getpgid
 _real_killpg = os.killpg
 _real_kill = os.kill
 _real_time = time.time
+_real_select = select.select
 _sleep = time.sleep
 
 _ACTIVE = None  # the active Kernel, if any
@@ -96,6 +97,8 @@ class Kernel:
         self.fatal = None  # callback(kind, detail)
         self.activity = 0
         self.by_watchdog = False
+        self._idle_selects = 0
+        self._quiet_selects = 0
         self.stats = {
             "coalesced": 0, "exit_before_reg": 0, "popen_race": 0,
             "foreign_exit": 0, "exit_in_handler": 0, "max_running": 0,
@@ -409,20 +412,78 @@ class Kernel:
                 self.deliver()
 
     def read_blocking(self, fd, n):
-        """Main thread is about to block in read(): Conductor waits for a child."""
+        """Main thread is about to block in read(): Conductor waits for a child.
+
+        Python-level handlers for earlier exits run before the call (eval breaker).  At the call itself one tape entry
+        decides which children exit; in mode 1 the exit (and CPython's C-level handler, which only sets a flag) lands
+        between the last eval-breaker check and the system call: the Python handler cannot run until read() returns,
+        i.e. until a LATER signal interrupts it.  If nothing else is running, nothing will ever wake the main thread."""
         guard = 0
         while True:
             self.deliver()
-            r, _, _ = select.select([fd], [], [], 0)
+            r, _, _ = _real_select([fd], [], [], 0)
             if r:
                 return _real_read(fd, n)
-            if not self.running():
-                # tee threads may still be flushing; nothing else can wake us up
+            run = self.running()
+            if not run:
                 self._fatal("deadlock", "main thread blocked in read(); no running child")
-            self.point("read", blocking=True)
+            self.activity += 1
+            entry = self._tape_next()
+            mode, sel = entry & 1, entry >> 1
+            chosen = [p for i, p in enumerate(run) if (sel >> i) & 1] or [run[sel % len(run)]]
+            for p in chosen:
+                self._exit_proc(p)
+            if mode == 1:
+                self.stats["exit_right_before_blocking_read"] = self.stats.get("exit_right_before_blocking_read", 0) + 1
+                rest = self.running()
+                if not rest:
+                    self._fatal("deadlock", "a child exited right before the main thread entered the blocking read(): CPython's "
+                                "C-level handler only set a flag, the Python SIGCHLD handler has not run, and no other child "
+                                "is left whose exit could interrupt the read (lost wake-up)")
+                # a later exit interrupts the read (EINTR); then all pending handlers run
+                self._exit_proc(rest[self._tape_next() % len(rest)])
             guard += 1
             if guard > 10000:
                 self._fatal("deadlock", "read() made no progress")
+
+    def select(self, rlist, wlist, xlist, timeout):
+        """select() in the main thread: a wait with (possibly) a timeout."""
+        self.deliver()
+        ready = _real_select(rlist, wlist, xlist, 0)
+        if any(ready) or timeout == 0:
+            return ready
+        self.activity += 1
+        run = self.running()
+        if not run:
+            if timeout is None:
+                self._fatal("deadlock", "main thread blocked in select() without timeout; no running child")
+            self._idle_selects += 1
+            if self._idle_selects > 200:
+                self._fatal("deadlock", "main thread keeps polling with select() although no child is running")
+            return ready
+        self._idle_selects = 0
+        entry = self._tape_next()
+        mode, sel = entry & 1, entry >> 1
+        chosen = [p for i, p in enumerate(run) if (sel >> i) & 1]
+        if not chosen and timeout is None:
+            chosen = [run[sel % len(run)]]
+        if not chosen:
+            # nothing exits during this (finite) wait; make sure time passes eventually
+            self._quiet_selects += 1
+            if self._quiet_selects >= 3:
+                chosen = [run[sel % len(run)]]
+        if chosen:
+            self._quiet_selects = 0
+        for p in chosen:
+            self._exit_proc(p)
+        if mode == 1 and chosen:
+            # exit landed right before the syscall: the handler runs only after select() returned
+            self.stats["exit_right_before_blocking_read"] = self.stats.get("exit_right_before_blocking_read", 0) + 1
+            if timeout is None and not self.running():
+                self._fatal("deadlock", "lost wake-up: select() without timeout entered right after the last child's SIGCHLD was flagged")
+            return ready
+        self.deliver()
+        return _real_select(rlist, wlist, xlist, 0)
 
     def _fatal(self, kind, detail):
         self.log("fatal", what=kind, detail=detail)
@@ -499,10 +560,18 @@ def _w_read(fd, n):
     if (k is None or threading.current_thread() is not _MAIN_THREAD
             or _caller_file(1) == _SUBPROCESS_FILE or k.in_point):
         return _real_read(fd, n)
-    r, _, _ = select.select([fd], [], [], 0)
+    r, _, _ = _real_select([fd], [], [], 0)
     if r:
         return _real_read(fd, n)
     return k.read_blocking(fd, n)
+
+
+def _w_select(rlist, wlist, xlist, timeout=None):
+    k = _ACTIVE
+    if (k is None or threading.current_thread() is not _MAIN_THREAD
+            or _caller_file(1) in (_SUBPROCESS_FILE, __file__)):
+        return _real_select(rlist, wlist, xlist, timeout)
+    return k.select(rlist, wlist, xlist, timeout)
 
 
 def _w_getpgid(pid):
@@ -547,6 +616,7 @@ def install():
     subprocess._fork_exec = _w_fork_exec
     os.waitpid = _w_waitpid
     os.read = _w_read
+    select.select = _w_select
     os.getpgid = _w_getpgid
     os.killpg = _w_killpg
     os.kill = _w_kill
